@@ -4,7 +4,14 @@ from fractions import Fraction
 from . import gen, tlc
 
 PROPS = ["P_Balanced", "P_Prescribed", "P_Guards", "P_Delivery"]
-INVS = ["WellFormedState", "WellFormedCallbacks"]
+INVS = ["WellFormedState", "WellFormedCallbacks", "RoundTrip"]
+
+
+def pair_menu(fx):
+    """small menu for the save/load pair model: every configuration reachable by single requests, every saved buffer"""
+    fl = gen.Flat(fx["shape"])
+    return dict(kinds=["change", "resume"], dests=list(range(1, fl.n + 1)), hookKinds=[], hookDests=[], sched=[],
+                hookStates=[], qmax=0, planops=False, serial=True)
 
 
 def tla_set(xs):
@@ -26,7 +33,7 @@ def default_menu(fx, tier):
     util_strats = any(r["strat"] in ("Utilitarian", "Random") for r in fl.tab)
     kinds = ["change", "restart", "resume", "select"] + (["utilize", "randomize"] if util_strats or tier == "thorough" else [])
     m = dict(kinds=kinds, dests=list(range(1, fl.n + 1)), hookKinds=kinds, hookDests=list(range(1, fl.n + 1)), sched=[s for s in range(2, fl.n + 1) if fl.st(fl.st(s)["parent"])["kind"] == "C"][:2],
-             hookStates=users, qmax=0, planops=False)
+             hookStates=users, qmax=0, planops=False, serial=False)
     if tier == "quick":
         leaves = [s for s in range(2, fl.n + 1) if fl.st(s)["kind"] == "S"]
         m["hookStates"] = sorted(set(users[:2] + leaves[:1] + leaves[-1:]))
@@ -58,10 +65,10 @@ def stage(d, fx, tier, dev=(), props=PROPS, invs=INVS, menu=None):
     tlc.stage_spec(d)
     name = "MC_" + re.sub(r"\W", "_", fx["name"])
     m = menu or default_menu(fx, tier)
-    menu_tla = ("[kinds |-> %s, dests |-> %s, hookKinds |-> %s, hookDests |-> %s, sched |-> %s, hookStates |-> %s, envs |-> %s, qmax |-> %d, planops |-> %s]"
+    menu_tla = ("[kinds |-> %s, dests |-> %s, hookKinds |-> %s, hookDests |-> %s, sched |-> %s, hookStates |-> %s, envs |-> %s, qmax |-> %d, planops |-> %s, serial |-> %s]"
                 % (tla_str_set(m["kinds"]), tla_set(map(str, m["dests"])), tla_str_set(m["hookKinds"]), tla_set(map(str, m["hookDests"])), tla_set(map(str, m["sched"])),
                    tla_set(map(str, m["hookStates"])), tla_set(tla_env(e) for e in envs(fx, tier)), m["qmax"],
-                   "TRUE" if m["planops"] else "FALSE"))
+                   "TRUE" if m["planops"] else "FALSE", "TRUE" if m.get("serial") else "FALSE"))
     with open(os.path.join(d, name + ".tla"), "w") as f:
         f.write("---- MODULE %s ----\nEXTENDS Machine\n%sDevDef == {%s}\nMenuDef == %s\n====\n"
                 % (name, gen.tla_defs(fx), ",".join('"%s"' % x for x in dev), menu_tla))
